@@ -15,7 +15,7 @@ PID = 'C01'
 def vocab(seed):
     k, m = alphabet.words(seed, 2)
     F = lambda t, i: ('f', t, i)
-    items = [F('a', 1), F('a', 2), F('a', 3), ('NR',), ('NF',), ('lit', "x,y$&$$$`"), ('cat', F('a', 1), ('lit', 'x')),
+    items = [F('a', 1), F('a', 2), F('a', 3), ('NR',), ('NF',), ('lit', "x,\ty$&$$\t\t$`", None, 'raw'), ('cat', F('a', 1), ('lit', 'x')),
              ('arith', '+', ('arith', '*', ('NR',), ('int', 2)), ('NF',)), ('star', None), ('star', 'a'), ('list', F('a', 1), F('a', 2)),
              ('unnest', ('split', F('a', 2), ';')), ('unnest', ('list', F('a', 1), F('a', 2))), ('unnest', ('list',))]
     wheres = [None, ('cmp', '==', F('a', 1), ('lit', k)), ('cmp', '>', ('NR',), ('int', 1)), ('cmp', '==', ('NF',), ('int', 2)), ('like', F('a', 1), k[0] + '%'), ('cmp', '!=', F('a', 1), ('lit', "$'$&"))]
